@@ -543,10 +543,16 @@ func (s *Solver) Values(exprs []string) ([]*Sexp, bool) {
 	}
 	txt := strings.Join(lines, "\n")
 	if strings.Contains(txt, "(error") {
+		if s.Verbose {
+			fmt.Fprintln(os.Stderr, "GET-VALUE error:", truncate(txt, 300))
+		}
 		return nil, false
 	}
 	sx, err := parseSexp(txt)
 	if err != nil || sx.Atom != "" || len(sx.List) != len(exprs) {
+		if s.Verbose {
+			fmt.Fprintln(os.Stderr, "GET-VALUE parse problem:", err, truncate(txt, 300))
+		}
 		return nil, false
 	}
 	out := make([]*Sexp, len(exprs))
